@@ -39,6 +39,7 @@ Bs ::= BMPString
 Us ::= UniversalString
 Mix ::= SEQUENCE { o Oid, r Re OPTIONAL, s SET OF Oid, n Nb DEFAULT {a}, t Ut OPTIONAL }
 Nl ::= SEQUENCE { a NULL, b SEQUENCE OF NULL, c CHOICE { n NULL, f BOOLEAN }, d NULL OPTIONAL, e BOOLEAN }
+Bd ::= SEQUENCE { f BIT STRING DEFAULT '101'B, g BIT STRING (SIZE (5)) DEFAULT '10100'B, o OCTET STRING DEFAULT 'AB'H, h BIT STRING OPTIONAL }
 '''
 OIDS = ['2.999.3', '2.999.4.1', '1.3.1079', '2.100.5', '1.2.840.113549.1.1', '2.5.4.3', '0.9.2342', '2.999', '1.3.6.1.4.1.128.300', '2.48.1.1']
 REALS = [0.0, 1.5, -2.25, 1e10, 1e-300, 1.7976931348623157e308, 5e-324, float('inf'), float('-inf'), 3.0, 0.1]
@@ -65,6 +66,18 @@ class Pool:
             return r.choice(NBS)
         if t in ('Bs', 'Us'):
             return r.choice(TEXTS)
+        if t == 'Bd':
+            # MUTABLE inputs (bytearray) of exactly the needed length with junk in the unused bits: encode must not touch them
+            v = {}
+            if r.random() < 0.8:
+                v['f'] = r.choice([(bytearray(b'\xbf'), 3), (bytearray(b'\xa0'), 3), (bytearray(b'\xff\x81'), 9), (b'\xa7', 3)])
+            if r.random() < 0.6:
+                v['g'] = r.choice([(bytearray(b'\xa7'), 5), (bytearray(b'\xa0'), 5), (bytearray(b'\x17'), 5)])
+            if r.random() < 0.5:
+                v['o'] = r.choice([bytearray(b'\xab'), bytearray(b'\x01\x02'), b'\xab'])
+            if r.random() < 0.4:
+                v['h'] = r.choice([(bytearray(b'\xff'), 1), (bytearray(b'\x0f\xff'), 12)])
+            return v
         if t == 'Nl':
             v = {'a': None, 'b': [None] * r.randrange(3), 'c': r.choice([('n', None), ('f', True)]), 'e': r.random() < 0.5}
             if r.random() < 0.5:
@@ -301,7 +314,7 @@ def run(ctx):
         tree = {'v': 1, 'kids': [{'v': 2}, {'v': 3, 'kids': [{'v': 4}]}]}
         shared = {'a': 1, 'c': [2, 3]}
         pool = Pool(rng)
-        types = [('A', t, g), ('Tree', None, tree), ('Shared', None, shared)] + [(n, n, pool) for n in ('Oid', 'Oid', 'Mix', 'Mix', 'Re', 'Ut', 'Gt', 'Nb', 'Bs', 'Us', 'Nl', 'Nl')]
+        types = [('A', t, g), ('Tree', None, tree), ('Shared', None, shared)] + [(n, n, pool) for n in ('Oid', 'Oid', 'Mix', 'Mix', 'Re', 'Ut', 'Gt', 'Nb', 'Bs', 'Us', 'Nl', 'Nl', 'Bd', 'Bd')]
         ops = make_ops(rng, spec, types, ctx.n(30, 50))
         if codec == 'gser':
             ops = [op for op in ops if op[0] == 'enc'] or [('enc', 'Tree', tree)]
